@@ -52,6 +52,7 @@ SYMBOLIC_TO_INT_DURS = {
 }
 
 LABEL_DURS = {
+    "maxima": 32,
     "long": 16,
     "breve": 8,
     "whole": 4,
